@@ -7,8 +7,9 @@
 (*        over Required fields);                                                                 *)
 (*   C11.StoredBodyIsVotedBody : for every attestation found in the store after the two claims went *)
 (*        through the real msg server, the key equals the key recomputed from the STORED claim body  *)
-(*        and the stored body agrees with what EACH recorded voter submitted on every field but the  *)
-(*        voter identity / tx metadata;                                                              *)
+(*        the stored body agrees with a claim EACH recorded voter submitted on every field but the   *)
+(*        voter identity / tx metadata, and every accepted submission has its vote on an attestation *)
+(*        whose stored body is that submission;                                                      *)
 (*   <pid>.FieldTableComplete : the field list obtained by reflection over the real item type    *)
 (*        equals Fields(kind) -- a field added to the code must be classified in the table;      *)
 (*   <pid>.KindTableComplete  : the item types found in the code are the kinds of the table;     *)
@@ -43,9 +44,13 @@ TrCheck == IsEvent("Check") /\
            /\ (pid = "C11" /\ e.res = "ok") =>
                 /\ Report("Setup.AttestationsObserved", Len(e.atts) >= 1 /\ \A a \in SetOf(e.atts) : a.unknown_voters = 0 /\ a.votes >= 1)
                 /\ Report("C11.StoredBodyIsVotedBody",
-                          \A a \in SetOf(e.atts) :
-                             \/ a.key = a.body_key /\ SetOf(a.diff) \subseteq Excluded(o.kind)
-                             \/ ~Detail(<<"stored body is not what was voted", o, a>>))
+                          \/ /\ \A a \in SetOf(e.atts) :
+                                   /\ a.key = a.body_key
+                                   \* every recorded voter submitted (at some point of the history) a claim that IS the stored body
+                                   /\ \A v \in SetOf(a.voters) : \E d \in SetOf(v) : SetOf(d) \subseteq Excluded(o.kind)
+                             \* every accepted submission sits on an attestation whose stored body IS the submitted claim
+                             /\ \A sb \in SetOf(e.subs) : sb.accepted => \E h \in SetOf(sb.homes) : SetOf(h) \subseteq Excluded(o.kind)
+                          \/ ~Detail(<<"stored body is not what was voted", o>>))
            /\ o.mode # "cross" =>
                 Report(pid \o ".FieldTableComplete",
                        seen = Fields(o.kind) \/ ~Detail(<<"unlisted field", o.kind, seen \ Fields(o.kind),
